@@ -35,6 +35,7 @@ def RULE(tier):
 
 def plan(tier, seed):
     t = [("classes", n) for n in range(2, 7)]
+    t += [("sameobject", 150 if tier == "quick" else 1500, seed * 100 + i) for i in range(8)]
     for n in (2, 3, 4):
         t.append(("enum", n, groups.group_tasks(n), 1.0, seed))
     sd = groups.group_tasks(5)
@@ -212,6 +213,36 @@ def work(task):
                     _note(p, n, cid, label, a["gens"])
         if cnt and len(p.samples) < 1:
             p.sample({"n": n, "anchor": ws.strings(a["gens"], n), "a neighbour": ws.strings(g, n), "neighbours and siblings": len(sibs)})
+    elif kind == "sameobject":
+        # one Stabilizer object (built from a Graph, whose matrix it shares) classified again and again while the caller
+        # edits the graph through the public Graph API
+        from htstabilizer.stabilizer import Stabilizer
+        from htstabilizer.graph import Graph
+        from htstabilizer.lc_classes import determine_lc_class
+        _, cnt, seed = task
+        rnd = random.Random(seed)
+        for k in range(cnt):
+            n = rnd.randint(4, 6)
+            code = rnd.randrange(1, 1 << (n * (n - 1) // 2))
+            rows = lcorbit.adj_rows(code, n)
+            g = Graph(np.array([[(rows[a] >> b) & 1 for b in range(n)] for a in range(n)], dtype=np.int8))
+            s = Stabilizer(g)
+            for step in range(5):
+                label = lcorbit.orbit_table(n)[lcorbit.code_of(rows, n)]
+                ok, cid = call(lambda: determine_lc_class(s).id())
+                cid = int(cid) if ok else "exc:" + exc_name(cid)
+                p.evals += 1
+                p.counters["same Stabilizer object re-classified after graph edits"] += 1
+                _note(p, n, cid, label, lcorbit.graph_gens(lcorbit.code_of(rows, n), n))
+                a, b = rnd.sample(range(n), 2)
+                if (rows[a] >> b) & 1:
+                    g.remove_edge(a, b)
+                    rows[a] &= ~(1 << b)
+                    rows[b] &= ~(1 << a)
+                else:
+                    g.add_edge(a, b)
+                    rows[a] |= 1 << b
+                    rows[b] |= 1 << a
     elif kind == "classes":
         from htstabilizer import lc_classes
         n = task[1]
